@@ -1275,14 +1275,15 @@ func unchoke(peer *Peer, unchoke bool) error {
 		if err == nil {
 			atomic.StoreUint32(&peer.amUnchoking, 0)
 			atomic.AddInt32(&numUnchoking, -1)
-			for _, r := range peer.requested {
+			requested := peer.requested
+			peer.requested = nil
+			peer.unchokeTime = time.Now()
+			for _, r := range requested {
 				err := reject(peer, r.Index, r.Begin, r.Length)
 				if err != nil {
 					return err
 				}
 			}
-			peer.requested = nil
-			peer.unchokeTime = time.Now()
 		}
 		return err
 	}
